@@ -200,14 +200,14 @@ func (m *c14Model) verify(fs *envfs.FS) (c14Verdict, *core.PanicInfo, []string) 
 		materialize(root, fs.Files)
 		pi := core.Catch(func() {
 			if m.par1 {
-				res, err := par1.Verify(filepath.Join(root, m.index), par1.VerifyOptions{VerifyAllData: true})
+				res, err := par1.Verify(c14Spell(filepath.Join(root, m.index)), par1.VerifyOptions{VerifyAllData: true})
 				if err != nil {
 					v.err = err.Error()
 					return
 				}
 				v.needed, v.poss, v.counts = res.FileCounts.RepairNeeded(), res.FileCounts.RepairPossible(), fmt.Sprintf("%+v", res)
 			} else {
-				res, err := par2.Verify(filepath.Join(root, m.index), par2.VerifyOptions{NumGoroutines: 1})
+				res, err := par2.Verify(c14Spell(filepath.Join(root, m.index)), par2.VerifyOptions{NumGoroutines: 1})
 				if err != nil {
 					v.err = err.Error()
 					return
@@ -253,14 +253,17 @@ func (m *c14Model) repair(fs *envfs.FS, dc bool) (paths []string, err error, pi 
 		}
 		pi = core.Catch(func() {
 			if m.par1 {
-				res, e := par1.Repair(filepath.Join(root, m.index), par1.RepairOptions{DoubleCheck: dc})
+				res, e := par1.Repair(c14Spell(filepath.Join(root, m.index)), par1.RepairOptions{DoubleCheck: dc})
 				paths, err = res.RepairedPaths, e
 			} else {
-				res, e := par2.Repair(filepath.Join(root, m.index), par2.RepairOptions{DoubleCheck: dc, NumGoroutines: 1})
+				res, e := par2.Repair(c14Spell(filepath.Join(root, m.index)), par2.RepairOptions{DoubleCheck: dc, NumGoroutines: 1})
 				paths, err = res.RepairedPaths, e
 			}
 		})
 		for i := range paths {
+			if abs, e := filepath.Abs(paths[i]); e == nil {
+				paths[i] = abs // reported the way the index path was spelled
+			}
 			paths[i] = strings.TrimPrefix(paths[i], root)
 		}
 		after := readTree(root)
@@ -326,6 +329,26 @@ var c14DiskSeq int
 func c14DiskRoot() string {
 	c14DiskSeq++
 	return filepath.Join(workerScratch(), fmt.Sprintf("c14-%d", c14DiskSeq))
+}
+
+// c14Spell varies how the disk models name the index file: absolute, relative to the working directory of the process
+// (which lies elsewhere, so the path starts with ".."), and relative with "./" in front. The spelling must not matter.
+func c14Spell(abs string) string {
+	wd, err := os.Getwd()
+	if err != nil {
+		return abs
+	}
+	rel, err := filepath.Rel(wd, abs)
+	if err != nil {
+		return abs
+	}
+	switch c14DiskSeq % 3 {
+	case 1:
+		return rel
+	case 2:
+		return "./" + rel
+	}
+	return abs
 }
 
 func c14Build(name string, seed int64) *c14Model {
